@@ -7,8 +7,7 @@ Property theorems only (helper lemmas: `Parmcb/Lemmas/Meta.lean`).  `IsMCB g L` 
 cycle basis of g"; its total weight is unique (`C02.c02_mcb_weight_unique`) and is what every exact variant
 reports (`C02.c02_value_unique`, `C02.c02_min`).  Each theorem says how a minimum cycle basis of a
 transformed graph is obtained from one of the original graph, hence how the optimum changes.
-Not proved here (`c08_bridge_subdivision_partial`): adding a bridge between two components and subdividing
-an edge; they are exercised by the metamorphic correspondence runs only.
+Adding a bridge between two components and subdividing an edge are in `Props/C08b.lean` (`c08_bridge`, `c08_subdivide`).
 -/
 namespace Parmcb.C08
 open Parmcb Parmcb.C01 Parmcb.C02
